@@ -15,6 +15,7 @@ import JanetModel.Parse.CapLemmas
 import JanetModel.Parse.EofClean
 import JanetModel.Parse.PhysRun
 import JanetModel.Parse.PhysInsert
+import JanetModel.Parse.ErrOwn
 
 namespace JanetModel.Props.C11
 open JanetModel.Parse JanetModel.PP JanetModel.Gen.Parse
@@ -771,5 +772,68 @@ example : (tokencharM (fun _ => none) (pushstateM MP.init .tokenchar PFLAG_TOKEN
     = true := by decide
 example : (writeState (pushstateM (pushstateM MP.init .root PFLAG_CONTAINER) .root PFLAG_CONTAINER) (topPtr MP.init) id).fault = true := by
   decide
+
+/-! ### ownership of the pending error message (session 4b; seed C11-7)
+
+`parser->error` is either a string literal or the GC heap string `delim_error` makes; nothing but the parser references that string, and
+`parsermark` keeps it alive iff `flag & JANET_PARSER_GENERATED_ERROR`.  If the bit is lost while such a message is pending, the next
+collection frees it and `parser/error` returns whatever occupies the block: the error a client sees for the same bytes depends on heap
+activity. -/
+
+/-- ★ after ANY history of the complete parser API from `janet_parser_init`: `JANET_PARSER_GENERATED_ERROR` is set iff the pending error is a
+    message made by `delim_error` (one of the source's `delim_error` message arguments followed by the generated part), and clear iff
+    there is no pending error or it is one of the string literals the source assigns to `->error` -/
+theorem generated_error_flag_iff (scan : List B → Option String) (ops : List OpF) :
+    let p := ops.foldl (runOpFL scan) Parser.init
+    (genBit p = true ↔ ∃ m, p.error = some m ∧ IsGenerated m) ∧
+    (genBit p = false ↔ p.error = none ∨ ∃ m, p.error = some m ∧ IsStatic m) :=
+  genBit_iff_generated (genInv_api_history scan ops)
+
+/-- the invariant in its marking form: the bit is set only on a generated message, a literal or no message leaves it clear (what
+    `parsermark` relies on in both directions) -/
+theorem generated_error_marked (scan : List B → Option String) (ops : List OpF) : GenInv (ops.foldl (runOpFL scan) Parser.init) :=
+  genInv_api_history scan ops
+
+/-- one consumer call (`state->consumer(parser, state, c)`) leaves `error` and `flag` alone, or latches one of the source's literals
+    without touching `flag`, or latches a `delim_error` message together with the bit -/
+theorem consumer_error_flag_discipline (scan : List B → Option String) (p : Parser) (c : B) : ErrQuiet p (step scan p c).1 :=
+  errq_step scan p c
+
+/-- a generated message is never one of the literals (both lists regenerated from the source) -/
+theorem generated_message_not_static (m : String) (hs : IsStatic m) : ¬ IsGenerated m := static_not_generated m hs
+
+/-- ★ regenerated from the current parse.c on every run: EVERY write to `->error` / `->flag` in the file, per function in source order.
+    These are the writes the model makes -- `delimError` (`error := generated`, `flag ||| GENERATED_ERROR`), the consumers' literals,
+    `eof` (`flag ||| DEAD`: OR, the bit set three lines earlier survives), `takeError` (`error := none`, `flag &&& ~GENERATED_ERROR`),
+    `init`, `clone` (both copied).  Any other write (e.g. `flag = JANET_PARSER_DEAD`) changes this table and the obligation stops checking. -/
+theorem err_flag_source_sites : errFlagWrites = [
+  ("delim_error", ["error=heap", "flag|=GENERATED_ERROR"]),
+  ("escapeh", ["error=static"]),
+  ("escapeu", ["error=static"]),
+  ("escape1", ["error=static"]),
+  ("tokenchar", ["error=static"]),
+  ("root", ["error=static"]),
+  ("janet_parser_eof", ["flag|=DEAD"]),
+  ("janet_parser_error", ["error=NULL", "flag&=~GENERATED_ERROR"]),
+  ("janet_parser_init", ["error=NULL", "flag=0"]),
+  ("janet_parser_clone", ["flag=src->flag", "error=src->error"])] := by decide
+
+-- non-vacuity: `(` then eof: the generated message is pending WITH the bit (flag = DEAD | GENERATED_ERROR); a bad escape: literal, bit clear;
+-- and the invariant is not trivially true: the state seed C11-7 produces (same message, flag = DEAD only) violates it
+example : (eof (fun _ => none) (consume (fun _ => none) Parser.init 40)).error = some "unexpected end of source, ( opened at line 1, column 1" ∧
+    (eof (fun _ => none) (consume (fun _ => none) Parser.init 40)).flag = 3 := by decide
+example : (consume (fun _ => none) (consume (fun _ => none) (consume (fun _ => none) Parser.init 34) 92) 113).error = some "invalid string escape sequence" ∧
+    genBit (consume (fun _ => none) (consume (fun _ => none) (consume (fun _ => none) Parser.init 34) 92) 113) = false := by decide
+example : ¬ GenInv { eof (fun _ => none) (consume (fun _ => none) Parser.init 40) with flag := JANET_PARSER_DEAD } := by
+  intro h
+  have h2 := (genBit_iff_generated h).2.1 (by decide)
+  rcases h2 with h2 | ⟨m, h2, h3⟩
+  · exact absurd h2 (by decide)
+  · have hm : m = "unexpected end of source, ( opened at line 1, column 1" := by
+      have : ({ eof (fun _ => none) (consume (fun _ => none) Parser.init 40) with flag := JANET_PARSER_DEAD } : Parser).error =
+          some "unexpected end of source, ( opened at line 1, column 1" := by decide
+      rw [this] at h2; exact (Option.some.inj h2).symm
+    subst hm
+    exact absurd h3 (by unfold IsStatic; decide)
 
 end JanetModel.Props.C11
